@@ -22,10 +22,10 @@ use serde::{Deserialize, Serialize};
 use serde_json::json;
 
 use crate::cachex;
-use crate::engine::{Case, Ctx, Sm64};
+use crate::engine::{idx, Case, Ctx, Sm64};
 use crate::gen::shard::{materialize, shard_spec, unkey, ShardModel, ShardSpec, K};
 
-pub const RULE: &str = "operation in {session-shard flush, consolidate_shards_in_directory, cache-shard export_with_expiration, LocalClient::put of a xorb, DiskCache::put with subsumed items / eviction} x generated prior history (existing shards / xorbs / cache items, thresholds, capacities). A dry run under strace lists the mutating file-system calls (open with O_CREAT/O_TRUNC, write, rename, unlink, mkdir, rmdir, chmod, truncate) the single-threaded child issues after a marker call; the child is then re-run once per such call with SIGKILL injected at the entry of exactly that call (EVERY crash point of the operation), plus the uninterrupted run; each injected run is traced and must have died at the intended call. After each stop the directory is re-opened and checked: every file under a final name is complete and consistent with its name (shard: name = hash of content and it parses fully; xorb: both validators accept it for the hash in its name; cache item: length and CRC in the name match the content), every record retrievable from the durable state before the operation is still retrievable, re-open succeeds with leftovers present. non-trivial = a crash point strictly between the first and the last effect of an operation with >= 3 effects; distinct = (case fingerprint, crash point)";
+pub const RULE: &str = "operation in {session-shard flush, consolidate_shards_in_directory, cache-shard export_with_expiration, LocalClient::put of a xorb, DiskCache::put with subsumed items / eviction} x generated prior history (existing shards / xorbs / cache items, thresholds, capacities; in ~40% of the cases the operation writes content identical to a prior item, so its final name already exists). A dry run under strace lists the mutating file-system calls (open with O_CREAT/O_TRUNC, write, rename, unlink, mkdir, rmdir, chmod, truncate) the single-threaded child issues after a marker call; the child is then re-run once per such call with SIGKILL injected at the entry of exactly that call (EVERY crash point of the operation), plus the uninterrupted run; each injected run is traced and must have died at the intended call. After each stop the directory is re-opened and checked: every file under a final name is complete and consistent with its name (shard: name = hash of content and it parses fully; xorb: both validators accept it for the hash in its name; cache item: length and CRC in the name match the content), every record retrievable from the durable state before the operation is still retrievable, re-open succeeds with leftovers present. non-trivial = a crash point strictly between the first and the last effect of an operation with >= 3 effects; distinct = (case fingerprint, crash point)";
 
 pub const ASSUMPTIONS: &[&str] = &[
     "process-stop model: completed system calls persist, no power-loss reordering (as the property states)",
@@ -49,12 +49,36 @@ pub struct CrashCase {
     /// prior shards: subset seeds over the universe
     pub prior: Vec<u64>,
     pub seed: u64,
+    /// the operation writes content identical to the selected prior item (same shard records /
+    /// same xorb), so its final name already exists when it runs
+    #[serde(default)]
+    pub dup_of_prior: Option<u16>,
+}
+
+impl CrashCase {
+    /// seed of the content the operation under test writes
+    fn op_seed(&self) -> u64 {
+        match self.dup_of_prior {
+            Some(i) if !self.prior.is_empty() => self.prior[idx(i, self.prior.len())],
+            _ => self.seed,
+        }
+    }
+    /// (seed, chunk count) of the xorb the local put writes
+    fn put_payload(&self) -> (u64, usize) {
+        match self.dup_of_prior {
+            Some(i) if !self.prior.is_empty() => {
+                let k = idx(i, self.prior.len());
+                (self.prior[k], 1 + k % 4)
+            },
+            _ => (self.seed ^ 0xabc, 1 + (self.seed % 5) as usize),
+        }
+    }
 }
 
 fn case_strategy() -> impl Strategy<Value = CrashCase> {
     (
         prop_oneof![
-            2 => Just(OpKind::Flush),
+            3 => Just(OpKind::Flush),
             3 => prop_oneof![0u32..600, 600u32..200_000, Just(64u32 << 20)].prop_map(|threshold| OpKind::Consolidate { threshold }),
             2 => Just(OpKind::ExportExpiration),
             2 => Just(OpKind::LocalPut),
@@ -63,8 +87,9 @@ fn case_strategy() -> impl Strategy<Value = CrashCase> {
         shard_spec(6, 10),
         proptest::collection::vec(any::<u64>(), 0..5),
         any::<u64>(),
+        proptest::option::weighted(0.4, any::<u16>()),
     )
-        .prop_map(|(op, universe, prior, seed)| CrashCase { op, universe, prior, seed })
+        .prop_map(|(op, universe, prior, seed, dup_of_prior)| CrashCase { op, universe, prior, seed, dup_of_prior })
 }
 
 fn subset(u: &ShardModel, seed: u64) -> ShardModel {
@@ -119,7 +144,7 @@ pub fn child(spec_path: &Path) {
             let rt = tokio::runtime::Builder::new_current_thread().enable_all().build().unwrap();
             rt.block_on(async {
                 let mgr = ShardFileManager::new_in_session_directory(&d).await.unwrap();
-                let m = subset(&u, c.seed);
+                let m = subset(&u, c.op_seed());
                 for x in m.xorbs.values() {
                     mgr.add_cas_block(x.clone()).await.unwrap();
                 }
@@ -133,7 +158,7 @@ pub fn child(spec_path: &Path) {
         OpKind::Consolidate { threshold } => {
             let d = dir.join("shards");
             std::fs::create_dir_all(&d).unwrap();
-            for s in c.prior.iter().chain(std::iter::once(&c.seed)) {
+            for s in c.prior.iter().chain(std::iter::once(&c.op_seed())) {
                 let _ = subset(&u, *s).to_in_memory().write_to_directory(&d);
             }
             std::fs::create_dir(&marker).unwrap();
@@ -147,7 +172,7 @@ pub fn child(spec_path: &Path) {
             for s in &c.prior {
                 let _ = subset(&u, *s).to_in_memory().write_to_directory(&d);
             }
-            let p = subset(&u, c.seed).to_in_memory().write_to_directory(&src).unwrap();
+            let p = subset(&u, c.op_seed()).to_in_memory().write_to_directory(&src).unwrap();
             let sf = MDBShardFile::load_from_file(&p).unwrap();
             std::fs::create_dir(&marker).unwrap();
             let _ = sf.export_with_expiration(&d, Duration::from_secs(3600));
@@ -162,7 +187,8 @@ pub fn child(spec_path: &Path) {
                     let (h, data, cb) = xorb_payload(*s, 1 + i % 4);
                     client.put("default", &h, data, cb).await.unwrap();
                 }
-                let (h, data, cb) = xorb_payload(c.seed ^ 0xabc, 1 + (c.seed % 5) as usize);
+                let (ps, pn) = c.put_payload();
+                let (h, data, cb) = xorb_payload(ps, pn);
                 std::fs::create_dir(&marker).unwrap();
                 let _ = client.put("default", &h, data, cb).await;
             });
@@ -343,14 +369,14 @@ fn verify(base: &Path, c: &CrashCase, completed: bool) -> Result<(), String> {
             let prior: Vec<ShardModel> = c.prior.iter().map(|s| subset(&u, *s)).collect();
             let (mut wf, mut wx) = model_keys(&prior);
             if completed {
-                let (f2, x2) = model_keys(&[subset(&u, c.seed)]);
+                let (f2, x2) = model_keys(&[subset(&u, c.op_seed())]);
                 wf.extend(f2);
                 wx.extend(x2);
             }
             verify_shard_dir(&base.join("shards"), &wf, &wx, "flush")
         },
         OpKind::Consolidate { .. } => {
-            let all: Vec<ShardModel> = c.prior.iter().chain(std::iter::once(&c.seed)).map(|s| subset(&u, *s)).collect();
+            let all: Vec<ShardModel> = c.prior.iter().chain(std::iter::once(&c.op_seed())).map(|s| subset(&u, *s)).collect();
             let (wf, wx) = model_keys(&all);
             verify_shard_dir(&base.join("shards"), &wf, &wx, "consolidation")
         },
@@ -358,7 +384,7 @@ fn verify(base: &Path, c: &CrashCase, completed: bool) -> Result<(), String> {
             let prior: Vec<ShardModel> = c.prior.iter().map(|s| subset(&u, *s)).collect();
             let (mut wf, mut wx) = model_keys(&prior);
             if completed {
-                let (f2, x2) = model_keys(&[subset(&u, c.seed)]);
+                let (f2, x2) = model_keys(&[subset(&u, c.op_seed())]);
                 wf.extend(f2);
                 wx.extend(x2);
             }
@@ -391,7 +417,8 @@ fn verify(base: &Path, c: &CrashCase, completed: bool) -> Result<(), String> {
                 }
             }
             if completed {
-                let (h, _, _) = xorb_payload(c.seed ^ 0xabc, 1 + (c.seed % 5) as usize);
+                let (ps, pn) = c.put_payload();
+                let (h, _, _) = xorb_payload(ps, pn);
                 if !present.contains(&h.hex()) {
                     return Err("[sig:c19-put-lost] the uninterrupted put did not store its xorb".into());
                 }
@@ -478,6 +505,9 @@ fn oracle(c: &CrashCase, info: &mut Case) -> Result<(), String> {
         OpKind::CachePut { .. } => "cache-put",
     };
     info.label(format!("op:{opname}"));
+    if c.dup_of_prior.is_some() && !c.prior.is_empty() {
+        info.label(format!("op:{opname}:content-identical-to-a-prior-item"));
+    }
     let n = effects.len();
     let mut mid = 0;
     for (i, e) in effects.iter().enumerate() {
@@ -513,7 +543,7 @@ fn oracle(c: &CrashCase, info: &mut Case) -> Result<(), String> {
 }
 
 pub fn run(ctx: &Ctx) {
-    ctx.explore("crash", ctx.tier.pick(64, 1500), 16, case_strategy, oracle);
+    ctx.explore("crash", ctx.tier.pick(112, 1500), 16, case_strategy, oracle);
     ctx.bump_extra("crash_runs", CRASH_RUNS.load(std::sync::atomic::Ordering::Relaxed));
     ctx.bump_extra("crash_runs_strictly_inside_an_operation", MID_RUNS.load(std::sync::atomic::Ordering::Relaxed));
     ctx.bump_extra("crash_points_skipped_run_diverged", SKIPPED_POINTS.load(std::sync::atomic::Ordering::Relaxed));
